@@ -296,6 +296,23 @@ def construct (T : TimeOps τ) (dt dur : τ) (incl strict param : Bool) (user : 
     let s : MState τ := ⟨dt, dur, incl, cons, strict, param, store⟩
     if validM s then .ok s else .error .RuntimeError
 
+/-! ### Vocabulary of the size-formula invariant -/
+
+/-- the record dimension has the size the formula demands for the stored dt / duration / inclusive -/
+def SizeOK (T : TimeOps τ) (s : MState τ) : Prop :=
+  s.cons.lookup 0 = some (recSize T s.dt s.dur s.incl)
+
+def Op.isSetter : Op τ → Bool
+  | .setDt _ => true
+  | .setDur _ => true
+  | .setIncl _ => true
+  | _ => false
+
+/-- every temporal setter of the run returned without raising -/
+def settersSucceed (T : TimeOps τ) : MState τ → List (Op τ) → Prop
+  | _, [] => True
+  | s, op :: ops => (op.isSetter = true → (step T s op).2 = .unit) ∧ settersSucceed T (step T s op).1 ops
+
 end Machine
 
 end InfernoVerif.Record
